@@ -210,6 +210,7 @@ func expectBody(s spec, primary uint16, noted map[string]bool, decoded bool) str
 func (e *engine) runCodecChunk(chunk, nSpecs int) {
 	rng := newRng(e.r.Seed, "codec", chunk)
 	var evals int64
+	var reused *consensus.Payload
 	for i := 0; i < nSpecs; i++ {
 		kind := allKinds[(chunk+i)%len(allKinds)]
 		s := genSpec(rng, kind)
@@ -280,9 +281,24 @@ func (e *engine) runCodecChunk(chunk, nSpecs int) {
 			e.viol("roundtrip-mismatch:"+kind, "decoded payload differs from the content that was encoded", w(map[string]any{"want": want, "got": got}))
 			continue
 		}
-		if hq, hp := q.Hash(), p.Hash(); hq != hp {
+		hq0 := q.Hash()
+		if hq, hp := hq0, p.Hash(); hq != hp {
 			e.viol("roundtrip-hash-mismatch:"+kind, "Hash() changes across MarshalUnsigned/UnmarshalUnsigned", w(map[string]any{"hash": hp.String(), "decoded_hash": hq.String()}))
 			continue
+		}
+		// "a hash is a function of the content only": decoding this content into an object that
+		// held (and hashed) other content before must give the same hash as a fresh object
+		if reused == nil {
+			reused = new(consensus.Payload)
+			_ = reused.UnmarshalUnsigned(b)
+		}
+		_ = reused.Hash()
+		if err := reused.UnmarshalUnsigned(b); err == nil {
+			e.r.Count("codec.redecode_into_used_object", 1)
+			if hr := reused.Hash(); hr != hq0 {
+				e.viol("hash-not-function-of-content:"+kind, "Hash() of an object that was decoded into again does not reflect its new content", w(map[string]any{"fresh_hash": hq0.String(), "reused_object_hash": hr.String()}))
+				continue
+			}
 		}
 		b2, pn := encode(q)
 		if pn != nil || !bytes.Equal(b, b2) {
